@@ -79,7 +79,9 @@ func (r *Report) sample(x interface{}, max int) {
 	}
 }
 func (r *Report) finding(prop, sig, detail string, input interface{}) {
-	if len(r.Findings) < 200 {
+	k := "finding:" + prop + "/" + sig
+	r.Distribution[k]++
+	if r.Distribution[k] <= 4 { // keep the first few of each kind with their full input; count the rest
 		r.Findings = append(r.Findings, Finding{prop, sig, detail, input})
 	}
 }
